@@ -21,8 +21,8 @@
                                   and a value with a line break starts on a new line unless its first byte is
                                   one of . [ * ; every line after a line break is written as LF, 4 spaces (8 in
                                   an attribute) and the line, also when the line is empty)
-     C04_multiline_contains_parser_outputs   for every tree tj of RoundTripML.ml_resource (the multi-line
-                                  fragment of C02) and EVERY layout cs of it, the tree the parser returns for
+     C04_multiline_contains_parser_outputs   for every tree tj of RoundTripSel.sel_resource 0 (the multi-line
+                                  fragment of C02 with simple placeables) and EVERY layout cs of it, the tree the parser returns for
                                   render cs tj is in the fragment (and joins to tj): the fragment is what the
                                   parser produces from the sources that C02's fragment describes
      C04_simple_in_multiline      the one-line fragment below is a sub-fragment
@@ -34,7 +34,8 @@
        (one text element per line; a blank line inside the value is the text element "LF"; the indentation of
        a line beyond the common one is part of its text element, or a text element of its own in front of a
        placeable), and
-     - the elements joined (adjacent text elements concatenated) form a pattern of RoundTripML.ml_pattern
+     - the elements joined (adjacent text elements concatenated) form a pattern of RoundTripML.ml_pattern eok0
+       (placeables hold a simple inline expression; select expressions are not yet covered on the C04 side)
        (see Props/C02.v: lines free of '{' '}' CR, continuation lines not starting with . [ *, blank lines
        inside empty, common indentation 0, no leading/trailing space or line break).
    PROVED FOR THE SUB-FRAGMENT simple_resource (Syntax/RoundTrip.v: stand-alone comments of all three levels;
@@ -58,7 +59,7 @@
 From FluentV Require Import Base.Bytes Base.Outcome Base.Utf8 Syntax.Ast.
 From FluentV Require Import Syntax.ParserModel Syntax.SerializerModel Syntax.SerializerProofs Syntax.TreeNorm.
 From FluentV Require Import Syntax.Render Syntax.RoundTrip Syntax.SerializerRoundTrip.
-From FluentV Require Import Syntax.EntryLoop Syntax.RoundTripML Syntax.SerializerML.
+From FluentV Require Import Syntax.EntryLoop Syntax.RoundTripML Syntax.RoundTripSel Syntax.SerializerML.
 
 (* ---- "serialising ... yields" : the serializer returns for every tree ---- *)
 Theorem C04_serialize_total :
@@ -265,7 +266,7 @@ Proof. intros wj t Ht. destruct (parse_serialize_sml wj t Ht) as (t2 & Es & _). 
 
 (* the fragment contains the parser's output for every layout of every tree of C02's multi-line fragment *)
 Theorem C04_multiline_contains_parser_outputs :
-  forall cs tj, ml_resource tj = true ->
+  forall cs tj, sel_resource 0 tj = true ->
   exists t, parse (render cs tj) = Done (t, []) /\ sml_resource t = true /\ map join_entry t = tj.
 Proof. exact parser_outputs_sml. Qed.
 
